@@ -2,7 +2,7 @@ from ..jobs import CH
 
 H = "vf.harness.walk"
 META = {
-    "bounds": {"quick": "7 program shapes with parallel blocks (gates, sequential sub-blocks, aliases, macro parameters, nested macros with coinciding parameter names, loops, nested parallel blocks, idle gates), "
+    "bounds": {"quick": "8 program shapes with parallel blocks (busy gates as branches, gates, sequential sub-blocks, aliases, macro parameters, nested macros with coinciding parameter names, loops, nested parallel blocks, idle gates), "
                         "register size 3, all four indices -1..3",
                "thorough": "register sizes 3 and 4, indices -1..4"},
     "assumptions": ["busy = the prepare_all/measure_all definitions of the harness gate set; idle = I_<gate> definitions from add_idle_gates"],
@@ -13,12 +13,12 @@ META = {
 def jobs(tier):
     q = tier == "quick"
     out = []
-    for shape in range(7):
+    for shape in range(8):
         for size in ((3,) if q else (3, 4)):
             for i in range(-1, size + 1):
                 out.append(CH(name=f"c13_parallel_s{shape}_n{size}_i{i}", base="c13_parallel", func=f"{H}:c13_parallel",
                               params=[("j", "int"), ("k", "int"), ("l", "int")], pre=[f"-1 <= j <= {size}", f"-1 <= k <= {size}", f"-1 <= l <= {size}"],
-                              fixed={"shape": shape, "size": size, "i": i}, timeout=400 if q else 1500,
+                              fixed={"shape": shape, "size": size, "i": i}, timeout=400 if q else 1500, twin=(shape != 7),
                               functions=["UsedQubitIndicesVisitor.visit_*", "UsedQubitIndicesVisitor.merge_into", "GateStatement.used_qubits", "GateDefinition.used_qubits",
                                          "IdleGateDefinition.used_qubits", "BusyGateDefinition.used_qubits", "DiscoverSubcircuits.visit_BlockStatement", "run_jaqal_circuit"],
                               note="emulator rejects (JaqalError) <=> some parallel block has two branches with intersecting reference qubit sets; accepted results "
